@@ -77,14 +77,16 @@ def check_edge_jacobians(seed, n_per):
                     continue
                 Ja = [np.asarray(J, dtype=np.float64) for J in e.calc_jacobians()]
                 Jn = num_jacobians(e)
-                evals += 1
-                for k, (a, b) in enumerate(zip(Ja, Jn)):
+                Jn2 = num_jacobians(e, h=3e-6)      # second step size: the disagreement of the two estimates measures the rounding noise
+                evals += 1                          # of the difference quotient itself (|values| up to 1e8 with 1e4 translations and non-unit quaternions)
+                for k, (a, b, b2) in enumerate(zip(Ja, Jn, Jn2)):
                     if a.shape != b.shape:
                         fails.append({'edge': name, 'vals': vals, 'vertex': k, 'why': 'shape %s vs %s' % (a.shape, b.shape)})
                         break
                     scale = 1.0 + np.abs(a).max() + np.abs(b).max()
                     err = np.abs(a - b).max()
-                    if not err <= 5e-5 * scale:
+                    unc = float(np.abs(b - b2).max()) if b.shape == b2.shape else 0.0
+                    if not err <= 5e-5 * scale + 10.0 * unc:
                         fails.append({'edge': name, 'vals': vals, 'vertex': k, 'why': 'max |J - numeric| = %g (scale %g)' % (err, scale),
                                       'analytic': a.tolist(), 'numeric': b.tolist()})
                         break
